@@ -334,6 +334,88 @@ fn handle_census(repo: &str, req: &Value) -> Result<Value, String> {
     rules::census(repo, &files)
 }
 
+/// inventory: every non-test item of a file with a hash of its token text (functions and impl methods by name; other items by kind
+/// and name).  The driver subtracts the functions under contract: what is left is the code no contract speaks about, and a change
+/// there is something the proofs cannot have noticed.
+fn handle_inventory(repo: &str, req: &Value) -> Result<Value, String> {
+    use std::collections::hash_map::DefaultHasher;
+    use std::hash::{Hash, Hasher};
+    use quote::ToTokens;
+    let file = req["file"].as_str().ok_or("inventory: missing file")?;
+    let p = format!("{}/{}", repo, file);
+    let src = std::fs::read_to_string(&p).map_err(|e| format!("lost anchor: cannot read {}: {}", p, e))?;
+    let ast = syn::parse_file(&src).map_err(|e| format!("lost anchor: cannot parse {}: {}", p, e))?;
+    fn h(t: String) -> String {
+        let mut hs = DefaultHasher::new();
+        t.hash(&mut hs);
+        format!("{:016x}", hs.finish())
+    }
+    fn is_test(attrs: &[syn::Attribute]) -> bool {
+        attrs.iter().any(|a| a.to_token_stream().to_string().replace(' ', "").contains("cfg(test)") || a.path().is_ident("test"))
+    }
+    fn strip_docs(attrs: &[syn::Attribute]) -> String {
+        attrs.iter().filter(|a| !a.path().is_ident("doc")).map(|a| a.to_token_stream().to_string()).collect::<Vec<_>>().join(" ")
+    }
+    fn walk(items: &[syn::Item], prefix: &str, out: &mut Vec<Value>) {
+        for it in items {
+            match it {
+                syn::Item::Fn(f) => {
+                    if is_test(&f.attrs) { continue; }
+                    let text = format!("{} {} {}", strip_docs(&f.attrs), f.sig.to_token_stream(), f.block.to_token_stream());
+                    out.push(json!({"kind": "fn", "name": format!("{}{}", prefix, f.sig.ident), "hash": h(text)}));
+                }
+                syn::Item::Impl(im) => {
+                    if is_test(&im.attrs) { continue; }
+                    let ty = im.self_ty.to_token_stream().to_string().replace(' ', "");
+                    let tr = im.trait_.as_ref().map(|(_, p, _)| p.to_token_stream().to_string().replace(' ', ""));
+                    let head = match &tr { Some(t) => format!("{}:{}", ty, t), None => ty.clone() };
+                    for ii in &im.items {
+                        match ii {
+                            syn::ImplItem::Fn(m) => {
+                                let text = format!("{} {} {}", strip_docs(&m.attrs), m.sig.to_token_stream(), m.block.to_token_stream());
+                                out.push(json!({"kind": "fn", "name": format!("{}{}::{}", prefix, head, m.sig.ident), "short": m.sig.ident.to_string(), "hash": h(text)}));
+                            }
+                            other => out.push(json!({"kind": "impl-item", "name": format!("{}{}::<item>", prefix, head), "hash": h(other.to_token_stream().to_string())})),
+                        }
+                    }
+                    out.push(json!({"kind": "impl-head", "name": format!("{}impl {}", prefix, head), "hash": h(format!("{} {}", strip_docs(&im.attrs), im.generics.to_token_stream()))}));
+                }
+                syn::Item::Mod(m) => {
+                    if is_test(&m.attrs) { continue; }
+                    if let Some((_, items)) = &m.content {
+                        walk(items, &format!("{}{}::", prefix, m.ident), out);
+                    } else {
+                        out.push(json!({"kind": "mod", "name": format!("{}mod {}", prefix, m.ident), "hash": h(strip_docs(&m.attrs))}));
+                    }
+                }
+                syn::Item::Use(_) => {}
+                other => {
+                    let (kind, name, attrs): (&str, String, &[syn::Attribute]) = match other {
+                        syn::Item::Struct(x) => ("struct", x.ident.to_string(), &x.attrs),
+                        syn::Item::Enum(x) => ("enum", x.ident.to_string(), &x.attrs),
+                        syn::Item::Const(x) => ("const", x.ident.to_string(), &x.attrs),
+                        syn::Item::Static(x) => ("static", x.ident.to_string(), &x.attrs),
+                        syn::Item::Type(x) => ("type", x.ident.to_string(), &x.attrs),
+                        syn::Item::Trait(x) => ("trait", x.ident.to_string(), &x.attrs),
+                        syn::Item::Macro(x) => ("macro", x.mac.path.to_token_stream().to_string().replace(' ', ""), &x.attrs),
+                        _ => ("item", String::new(), &[]),
+                    };
+                    if is_test(attrs) { continue; }
+                    // doc comments do not count: the token text without `#[doc = ..]` attributes (crudely: docs removed from the printed text)
+                    let mut text = other.to_token_stream().to_string();
+                    while let Some(i) = text.find("# [doc =") {
+                        match text[i..].find(']') { Some(j) => { text.replace_range(i..i + j + 1, ""); } None => break }
+                    }
+                    out.push(json!({"kind": kind, "name": format!("{}{} {}", prefix, kind, name), "hash": h(text)}));
+                }
+            }
+        }
+    }
+    let mut out: Vec<Value> = Vec::new();
+    walk(&ast.items, "", &mut out);
+    Ok(json!({"ok": true, "kind": "inventory", "file": file, "items": out}))
+}
+
 fn main() {
     let mut inp = String::new();
     std::io::stdin().read_to_string(&mut inp).expect("read stdin");
@@ -355,6 +437,7 @@ fn main() {
             "strtable" => handle_strtable(&repo, &item),
             "decl" => handle_decl(&repo, &item),
             "census" => handle_census(&repo, &item),
+            "inventory" => handle_inventory(&repo, &item),
             _ => Err(format!("unknown item kind {:?}", kind)),
         };
         match r {
